@@ -107,3 +107,88 @@ func lookThrough(s ast.Stmt) ast.Stmt {
 	}
 	return &ast.AssignStmt{Lhs: as.Lhs, Tok: as.Tok, Rhs: []ast.Expr{e}}
 }
+
+// bigIntInPlace: math/big methods that set their receiver and return it, so
+// `x.Mod(x, N).Cmp(r)` is `x.Mod(x, N); x.Cmp(r)`.
+var bigIntInPlace = map[string]bool{"Mod": true, "Add": true, "Sub": true, "Mul": true, "Set": true, "Neg": true, "Lsh": true, "Rsh": true}
+
+// unchain: a statement that uses the result of an in-place big.Int method
+// directly (`return x.Mod(x, N).Cmp(r) == 0`) is also offered as the two
+// statements it abbreviates: the in-place call, then the statement with the
+// call replaced by its receiver. Only a chain on a plain identifier receiver,
+// and only one per statement.
+func unchain(s ast.Stmt) (first, second ast.Stmt) {
+	var inner *ast.CallExpr
+	ast.Inspect(s, func(n ast.Node) bool {
+		if inner != nil {
+			return false
+		}
+		outer, ok := n.(*ast.CallExpr)
+		if !ok {
+			return true
+		}
+		sel, ok := outer.Fun.(*ast.SelectorExpr)
+		if !ok {
+			return true
+		}
+		c, ok := sel.X.(*ast.CallExpr)
+		if !ok {
+			return true
+		}
+		isel, ok := c.Fun.(*ast.SelectorExpr)
+		if !ok || !bigIntInPlace[isel.Sel.Name] {
+			return true
+		}
+		if _, ok := isel.X.(*ast.Ident); !ok {
+			return true
+		}
+		inner = c
+		return false
+	})
+	if inner == nil {
+		return nil, nil
+	}
+	recv := inner.Fun.(*ast.SelectorExpr).X
+	var rewrite func(e ast.Expr) ast.Expr
+	rewrite = func(e ast.Expr) ast.Expr {
+		switch x := e.(type) {
+		case *ast.CallExpr:
+			if x == inner {
+				return recv
+			}
+			out := &ast.CallExpr{Fun: rewrite(x.Fun), Ellipsis: x.Ellipsis}
+			for _, a := range x.Args {
+				out.Args = append(out.Args, rewrite(a))
+			}
+			return out
+		case *ast.SelectorExpr:
+			return &ast.SelectorExpr{X: rewrite(x.X), Sel: x.Sel}
+		case *ast.BinaryExpr:
+			return &ast.BinaryExpr{X: rewrite(x.X), Op: x.Op, Y: rewrite(x.Y)}
+		case *ast.UnaryExpr:
+			return &ast.UnaryExpr{Op: x.Op, X: rewrite(x.X)}
+		case *ast.ParenExpr:
+			return &ast.ParenExpr{X: rewrite(x.X)}
+		}
+		return e
+	}
+	switch x := s.(type) {
+	case *ast.ReturnStmt:
+		out := &ast.ReturnStmt{}
+		for _, r := range x.Results {
+			out.Results = append(out.Results, rewrite(r))
+		}
+		second = out
+	case *ast.ExprStmt:
+		second = &ast.ExprStmt{X: rewrite(x.X)}
+	case *ast.AssignStmt:
+		out := &ast.AssignStmt{Lhs: x.Lhs, Tok: x.Tok}
+		for _, r := range x.Rhs {
+			out.Rhs = append(out.Rhs, rewrite(r))
+		}
+		second = out
+	default:
+		return nil, nil
+	}
+	return &ast.ExprStmt{X: inner}, second
+}
